@@ -60,7 +60,7 @@ func newEngine(prog *ssa.Program, pkgs []*packages.Package) *Engine {
 		tconsts: map[string]string{}, tconstTypes: map[string]types.Type{}, heapSorts: map[string]string{},
 		abstracted: map[string]int{}, havocCalls: map[string]int{}, inlined: map[string]int{}, extUsed: map[string]int{},
 		maxPaths: 200000, safetyOn: true, c10units: map[string]bool{}, lockLess: map[string]map[string]bool{},
-		modCache: map[*ssa.BasicBlock]*modSet{}, pdomCache: map[*ssa.Function]map[*ssa.BasicBlock]*ssa.BasicBlock{}, neverClosedSends: map[string]int{}}
+		modCache: map[*ssa.BasicBlock]*modSet{}, pdomCache: map[*ssa.Function]map[*ssa.BasicBlock]*ssa.BasicBlock{}, neverClosedSends: map[string]int{}, fnModCache: map[*ssa.Function]*modSet{}}
 	for f := range ssautil.AllFunctions(prog) {
 		if f.Pkg != nil && strings.HasPrefix(f.Pkg.Pkg.Path(), modPath) || strings.Contains(f.String(), modPath) {
 			e.fns[shortName(f.String())] = f
@@ -188,7 +188,9 @@ func (e *Engine) verifyUnit(name string) (err error) {
 	e.freshObjs = nil
 	ct := e.spec.Contracts[name]
 	// safety obligations belong to C10 for peer-reachable functions, else to the property listing the function
-	e.safetyOn = e.curProp == "ALL" || (e.curProp == "C10" && e.c10units[name]) || (e.curProp != "C10" && !e.c10units[name])
+	// the zero-annotation safety sweep is claimed for the peer-reachable functions (C10's units) and for functions
+	// whose contract opts in with `safety`; elsewhere only the annotated obligations are generated
+	e.safetyOn = e.curProp == "ALL" || (e.curProp == "C10" && e.c10units[name]) || (ct != nil && ct.Safety && !e.c10units[name])
 	st := e.newState()
 	var args []Val
 	for i, p := range fn.Params {
@@ -555,6 +557,27 @@ func main() {
 			}
 			fmt.Fprintln(os.Stderr, "govc:", err)
 			os.Exit(2)
+		}
+	}
+	// vacuity of site rules: an assertion attached to a call/site that never occurs in the verified code checks nothing
+	verified := map[string]bool{}
+	for _, u := range units {
+		verified[u] = true
+	}
+	for _, u := range units {
+		if ct := e.spec.Contracts[u]; ct != nil {
+			for _, r := range ct.Sites {
+				if r.Action == "assert" && r.Fired == 0 && e.wantTags(r.Cl.Tags) {
+					missing = append(missing, fmt.Sprintf("contract-target-missing: %s: no `%s %s` site exists any more for assertion %s", u, r.Sel, r.Pat, r.Cl.Label))
+				}
+			}
+		}
+	}
+	if *flagUnit == "" {
+		for _, r := range e.spec.Globals {
+			if r.Action == "assert" && r.Fired == 0 && e.wantTags(r.Cl.Tags) && len(r.Cl.Tags) > 0 {
+				missing = append(missing, fmt.Sprintf("contract-target-missing: global rule `%s %s` (%s) matches no site in the units of %s", r.Sel, r.Pat, r.Cl.Label, prop))
+			}
 		}
 	}
 	if len(e.specErrs) > 0 {
